@@ -15,6 +15,7 @@ import (
 	"encoding/json"
 	"errors"
 	"fmt"
+	"github.com/fxamacker/cbor"
 	"github.com/privacybydesign/gabi/big"
 	"testing"
 	"time"
@@ -386,7 +387,7 @@ func TestVerifC09Assembled(t *testing.T) {
 	r := vkit.Start(t, "C09", "assembled-updates", 120*time.Second, 600*time.Second)
 	defer r.Finish()
 	H := vkit.Pick(6, 8)
-	r.Rule = fmt.Sprintf("history of %d revocations (event 3 revokes the tracked value of the second witness kind); older list [a..m] x newer update [m2..H] with m2 in [a+1..m+1] (overlap of 0..m-a events) x list form {object, JSON-decoded with product, two decoded halves flattened}; the assembled update applied to witnesses at EVERY index a-1..H-1 in ascending and in descending order (one shared update object) and each alone on a fresh assembly; non-trivial = distinct (a, m, m2, form, order, witness); oracle: Prepend succeeds; non-revoked witness => Update succeeds and the witness verifies against accumulator H; witness revoked inside the window => ErrorRevoked and unchanged", H)
+	r.Rule = fmt.Sprintf("history of %d revocations (event 3 revokes the tracked value of the second witness kind); older list [a..m], m up to H (covering all of the update's own events), x newer update [m2..H] with m2 in [a+1..m+1] (overlap of 0..m-a events) x list form {object, JSON-decoded with product, two decoded halves flattened}; the assembled update applied to witnesses at EVERY index a-1..H-1 in ascending and in descending order (one shared update object) and each alone on a fresh assembly; Update values used again (applied, then the next message decoded into the same value - JSON / CBOR - and applied to another witness at the same index); non-trivial = distinct (a, m, m2, form, order, witness); oracle: Prepend succeeds; non-revoked witness => Update succeeds and the witness verifies against accumulator H; witness revoked inside the window => ErrorRevoked and unchanged", H)
 	rvInstallEnv(t, "C09asm", r.Seed)
 	sk, pk := rvKeys(32, 0)
 	var es []*big.Int
@@ -408,8 +409,8 @@ func TestVerifC09Assembled(t *testing.T) {
 		return el
 	}
 	for a := 1; a <= H-1; a++ {
-		for m := a; m <= H-1; m++ {
-			for m2 := a + 1; m2 <= m+1; m2++ {
+		for m := a; m <= H; m++ { // m == H: the older list reaches up to the update's own last event
+			for m2 := a + 1; m2 <= m+1 && m2 <= H; m2++ {
 				for _, form := range []string{"object", "decoded+product", "flattened"} {
 					if form == "flattened" && m == a {
 						continue
@@ -506,4 +507,57 @@ func TestVerifC09Assembled(t *testing.T) {
 			}
 		}
 	}
+	// an Update VALUE that is used again: applied to a witness (which leaves a cached product in it), then
+	// the next message is decoded into the same value and applied to another witness at the same index
+	for _, enc := range []string{"json", "cbor"} {
+		for a := 1; a <= H-1; a++ {
+			for b1 := a; b1 <= H-1; b1++ {
+				for b2 := a; b2 <= H; b2++ {
+					if b2 == b1 {
+						continue
+					}
+					if _, mine := r.Next(); !mine {
+						continue
+					}
+					desc := fmt.Sprintf("Update value reused (%s): [%d..%d] applied to a witness at %d, then [%d..%d] decoded into the same value and applied to another witness at %d", enc, a, b1, a-1, a, b2, a-1)
+					r.Eval()
+					r.Nontrivial(desc)
+					u := world.Window(a, b1, 0)
+					w0 := world.Witness(a-1, rvPrime(0))
+					if err := w0.Update(pk, u); err != nil {
+						r.Violate("C09|reused-update-value|first-application-failed", fmt.Sprintf("%s: %v", desc, err), desc)
+						continue
+					}
+					var err error
+					if enc == "json" {
+						var bts []byte
+						if bts, err = json.Marshal(world.Window(a, b2, 0)); err == nil {
+							err = json.Unmarshal(bts, u)
+						}
+					} else {
+						var bts []byte
+						if bts, err = cbor.Marshal(world.Window(a, b2, 0), cbor.EncOptions{}); err == nil {
+							err = cbor.Unmarshal(bts, u)
+						}
+					}
+					if err != nil {
+						r.Violate("C09|reused-update-value|not-decodable", fmt.Sprintf("%s: %v", desc, err), desc)
+						continue
+					}
+					w1 := world.Witness(a-1, rvPrime(0))
+					pan, msg := vkit.Guard(func() { err = w1.Update(pk, u) })
+					r.Outcome(fmt.Sprintf("reused-update-value:%s:err=%v", enc, err != nil || pan))
+					switch {
+					case pan:
+						r.Violate("C09|reused-update-value|panic", desc+": "+msg, desc)
+					case err != nil:
+						r.Violate("C09|reused-update-value|applicable-update-failed", fmt.Sprintf("%s: %v", desc, err), desc)
+					case w1.SignedAccumulator.Accumulator.Index != uint64(b2) || w1.Verify(pk) != nil:
+						r.Violate("C09|reused-update-value|witness-not-valid-for-the-newest-accumulator", desc, desc)
+					}
+				}
+			}
+		}
+	}
+
 }
